@@ -142,6 +142,19 @@ type Two struct {
 	G ext2.Pt
 }
 
+// Anon has anonymous struct fields (Equal, Hash and GoString take them; Compare
+// and DeepCopy refuse them with a diagnostic).
+type Anon struct {
+	A int
+	F struct{ S []int }
+	G struct{ X int }
+	E struct{}
+	P *struct {
+		M map[string]int
+		L []string
+	}
+}
+
 // Far holds a type of a package whose name (geo) is not the last element of
 // its import path (example.com/v/geo/v2).
 type Far struct {
@@ -269,6 +282,7 @@ func structTys() []*Ty {
 		mk("ext.Pt", true, "ext"),
 		mk("Two", false, "ext", "ext2"),
 		mk("ext2.Pt", false, "ext2"),
+		mk("Anon", false, "anon"),
 		mk("geo.Seg", false, "ext", "geo"),
 		mk("Far", false, "ext", "geo"),
 	}
